@@ -200,7 +200,10 @@ func (w *World) refDeliverBlock(b *wire.MsgBlock) {
 				removedCB = append(removedCB, tx.TxHash())
 				continue
 			}
-			if w.relevant(tx, oldLed) {
+			// "known": C09 speaks of transactions the wallet knows. A wallet that was still
+			// importing when the block arrived, and whose rescan ran after the node had already
+			// left that branch, never recorded the transaction and cannot un-confirm it.
+			if w.relevant(tx, oldLed) && w.walletKnowsMined(tx) {
 				p.add(tx)
 			}
 		}
@@ -239,6 +242,19 @@ func (w *World) refDeliverBlock(b *wire.MsgBlock) {
 		w.applyBlock(led, newChain[i])
 	}
 	p.Tip = nb
+}
+
+// walletKnowsMined tells whether the wallet database holds any record keyed by tx's hash
+// (called BEFORE the reorganising notification is handed to the wallet): transaction
+// records, credits and debits all carry the hash in their keys.
+func (w *World) walletKnowsMined(tx *wire.MsgTx) bool {
+	h := tx.TxHash()
+	for _, kv := range w.RawDump() {
+		if bytesContains(kv.K, h[:]) {
+			return true
+		}
+	}
+	return false
 }
 
 // WalletPending reads the wallet's pending buckets through the store read API.
